@@ -124,6 +124,7 @@ func c06Shapes(thorough bool) []c06shape {
 	shapes = append(shapes,
 		c06shape{name: "[]interface{} under a 3-part selector", codes: 3, body: root, sel: []string{"p", "q", "S"}, mk: func(p []int) *Node { return NSlice(TAny, elems(p, one, two, NNilAny())...) }},
 		c06shape{name: "[]interface{} under a 3-part selector, re-entrant hook", codes: 3, body: root, sel: []string{"p", "q", "S"}, hook: HookIdentity, reentrant: true, mk: func(p []int) *Node { return NSlice(TAny, elems(p, one, two, NNilAny())...) }},
+		c06shape{name: "[]interface{}, re-entrant hook, unknown value 2", codes: 3, body: root, hook: HookIdentity, unknown: two, reentrant: true, mk: func(p []int) *Node { return NSlice(TAny, elems(p, one, two, NNilAny())...) }},
 		c06shape{name: "map[string]interface{} under a 3-part selector, re-entrant hook", codes: 3, isMap: true, body: root, sel: []string{"p", "q", "S"}, hook: HookIdentity, reentrant: true, mk: func(p []int) *Node { return mapOf(TAny, elems(p, one, two, NNilAny())) }},
 		c06shape{name: "map[string]interface{} under a 5-part selector", codes: 3, isMap: true, body: root, sel: []string{"p", "q", "r", "s", "S"}, mk: func(p []int) *Node { return mapOf(TAny, elems(p, one, two, NNilAny())) }},
 	)
@@ -377,7 +378,7 @@ func runC06(c *eng.Ctx) {
 				var self *bexpr.Evaluator
 				depth := 0
 				other := Build(wrap(sh.mk([]int{vF, vE, vF, vF, vT, vF}), 0)).Interface()
-				ev, err = bexpr.CreateEvaluator(src, bexpr.WithHookFn(func(v reflect.Value) reflect.Value {
+				ropts := append(optsFor(Cfg{Tag: "bexpr", Unknown: sh.unknown}), bexpr.WithHookFn(func(v reflect.Value) reflect.Value {
 					if depth == 0 && self != nil {
 						depth++
 						self.Evaluate(other)
@@ -385,6 +386,7 @@ func runC06(c *eng.Ctx) {
 					}
 					return v
 				}))
+				ev, err = bexpr.CreateEvaluator(src, ropts...)
 				self = ev
 			} else {
 				ev, err = createWith(src, cfg)
